@@ -33,6 +33,12 @@ UPDATES = [
     {'latex_inline_math_delimiters': [('$', '$'), ('\\(', '\\)')]},
     {'latex_display_math_delimiters': [('$', '?'), ('$$', '$$')]},
     {'latex_inline_math_delimiters': [('!', '$')], 'latex_display_math_delimiters': [('\\[', '\\]')]},
+    # BOTH lists changed in one call so that a pair crosses the boundary (the concatenation of the lists stays what
+    # it was), and the two lists exchanged
+    {'latex_inline_math_delimiters': [('$', '$')],
+     'latex_display_math_delimiters': [('\\(', '\\)'), ('$$', '$$'), ('\\[', '\\]')]},
+    {'latex_inline_math_delimiters': [('$', '$'), ('\\(', '\\)'), ('$$', '$$')], 'latex_display_math_delimiters': [('\\[', '\\]')]},
+    {'latex_inline_math_delimiters': [('$$', '$$'), ('\\[', '\\]')], 'latex_display_math_delimiters': [('$', '$'), ('\\(', '\\)')]},
     {'enable_math': False},
     {'enable_groups': False, 'enable_comments': False},
     {'macro_escape_char': '@', 'comment_start': '#'},
